@@ -89,10 +89,15 @@ BASE_A = [  # reference unit, SI prefixes, equal-scale units spelled differently
     ('#[unit(Atto_Like, "al", 1e-18)]', None),
     ('#[unit(Big_Next, "BN", 100000000000000016.0)]', None),
     ('#[unit(Big_Round, "BR", 1e17)]', None),
+    # identifiers with letter|digit word boundaries (the constant's name splits there, the variant's does not show it)
+    ('#[unit(m3_per_h, "m³/h", 3600.5)]', None),
+    ('#[unit(Mol_H2O, "mol", 18.015)]', None),
+    ('#[unit(Km3, "km³", 1e9)]', None),
 ]
 BASE_B = [('#[unit(Zeta_Unit, "z")]', None), ('#[unit(Alpha, "α", "first by name")]', None), ('#[unit(Mid_Unit, "m")]', None), ('#[unit(Beta, "β")]', None),
           # identifiers whose NAME order differs from the order of the re-cased variant identifiers
-          ('#[unit(Rockwell_B, "HRB")]', None), ('#[unit(RockwellA, "HRA")]', None), ('#[unit(phon, "ph")]', None), ('#[unit(Sone_Unit, "so")]', None)]
+          ('#[unit(Rockwell_B, "HRB")]', None), ('#[unit(RockwellA, "HRA")]', None), ('#[unit(phon, "ph")]', None), ('#[unit(Sone_Unit, "so")]', None),
+          ('#[unit(Liter_per_s2, "l/s²")]', None), ('#[unit(CO2eq, "CO₂e")]', None), ('#[unit(x86Word, "w")]', None)]
 BASE_C = [('#[unit(Only_One, "1")]', None)]
 FOO = ['#[quantity]', '#[unit(Kiloflop, "kf", KILO, 1000.)]', '#[ref_unit(Flop, "f", NONE)]', '#[unit(Centiflop, "cf", CENTI, 0.01)]', 'pub struct Foo {}']
 BAR = ['#[quantity]', '#[ref_unit(Emil, "e")]', '#[unit(Milliemil, "me", 0.001)]', '#[unit(Kiloemil, "ke", 1000)]', 'pub struct Bar {}']
